@@ -2,6 +2,8 @@
 
 package sctp
 
+import "time"
+
 // C07 — abandoned messages never block or destroy anything else (step-level lemmas; the
 // end-to-end scenario is vh_C07_L1_abandoned_does_not_block in cxfer.go).
 
@@ -429,4 +431,42 @@ func vh_C07_L6_given_up_message_larger_than_cwnd_does_not_wedge_the_sender() {
 // purges both (= C11.L2c); nothing of an abandoned message stays held.
 func vh_C07_L7_skip_purges_ordered_and_unordered_of_one_stream() {
 	vh_C11_L2_skip_purges_ordered_and_unordered_of_one_stream()
+}
+
+// C07.L8: a skip wakes the reader it unblocks. The first ordered message of a stream is
+// missing, the second is complete and held behind it; a reader is parked in a real ReadSCTP;
+// from another goroutine the (I-)FORWARD-TSN that skips the first message arrives: the parked
+// read returns the second message (the reader does not have to wait for further traffic).
+// DATA and I-DATA, cursor anywhere incl. the wraps.
+func vh_C07_L8_skip_wakes_a_parked_reader() {
+	il := vPick(2) == 1
+	a, _ := vNewAssocOpts(vAssocOpts{interleaving: il, fixedTSN: true})
+	a.useForwardTSN, a.useIForwardTSN = !il, il
+	cum := a.peerLastTSN()
+	s, err := a.OpenStream(4, PayloadTypeWebRTCBinary)
+	vassert(err == nil, "open stream")
+	ssn0, mid0 := nondetU16(), nondetU32()
+	s.reassemblyQueue.nextSSN, s.reassemblyQueue.nextMID = ssn0, mid0
+	second := vDataChunk(a, cum+2, 4, false, 2) // TSN cum+1 (the first message) never arrives
+	second.streamSequenceNumber, second.messageIdentifier = ssn0+1, mid0+1
+	want := []byte{second.userData[0], second.userData[1]}
+	vassert(vDeliver(a, second) == nil, "DATA ok")
+	vassert(!s.reassemblyQueue.isReadable(), "the second message is held behind the missing first one")
+	var fwd chunk
+	if il {
+		fwd = &chunkIForwardTSN{newCumulativeTSN: cum + 1, streams: []chunkIForwardTSNStream{{identifier: 4, messageIdentifier: mid0}}}
+	} else {
+		fwd = &chunkForwardTSN{newCumulativeTSN: cum + 1, streams: []chunkForwardTSNStream{{identifier: 4, sequence: ssn0}}}
+	}
+	vGoLive = true
+	vGo(func() {
+		vSleep(50 * time.Millisecond) // the reader is parked by now
+		_ = vDeliver(a, fwd)
+	})
+	buf := make([]byte, 8)
+	vMustNotBlock("a reader parked on the stream is woken by the skip that makes a message readable")
+	n, _, rerr := s.ReadSCTP(buf)
+	vMayBlock()
+	vassert(rerr == nil && n == 2 && buf[0] == want[0] && buf[1] == want[1], "the message behind the skipped one is delivered to the parked reader")
+	vcover("end")
 }
